@@ -364,3 +364,92 @@ func TestC11_BadKeywordIsCleanError(t *testing.T) {
 		vkCase("C11.badkw", good+"|"+bad, func() any { return map[string]any{"good": good, "bad": bad} })
 	})
 }
+
+// Geosite-scale sets: rank/select block boundaries and wide bit-list units only appear
+// with hundreds of thousands of trie nodes. One big suffix set and one big full set per
+// case (20k-45k patterns drawn from a seeded label space), probed with names derived
+// from the patterns; oracle = hash-set reference of the statement.
+func TestC11_Scale(t *testing.T) {
+	rapid.Check(t, func(t *rapid.T) {
+		n := rapid.SampledFrom([]int{20000, 33000, 45000}).Draw(t, "npatterns")
+		seed := rapid.Uint64().Draw(t, "labelseed")
+		kind := rapid.SampledFrom([]consts.RoutingDomainKey{consts.RoutingDomainKey_Suffix, consts.RoutingDomainKey_Full}).Draw(t, "kind")
+		x := seed | 1
+		next := func() uint64 { x ^= x << 13; x ^= x >> 7; x ^= x << 17; return x }
+		const alpha = "abcdefghijklmnopqrstuvwxyz0123456789-_"
+		label := func() string {
+			l := 2 + int(next()%9)
+			b := make([]byte, l)
+			for i := range b {
+				b[i] = alpha[next()%uint64(len(alpha))]
+			}
+			return string(b)
+		}
+		tlds := []string{"com", "net", "org", "io", "co.uk", "cn", "example"}
+		pats := make([]string, 0, n)
+		set := make(map[string]bool, n)
+		for len(pats) < n {
+			p := label() + "." + tlds[next()%uint64(len(tlds))]
+			if next()%4 == 0 {
+				p = label() + "." + p
+			}
+			if !set[p] {
+				set[p] = true
+				pats = append(pats, p)
+			}
+		}
+		m, err := c11Build(64, []c11Set{{Bit: 33, Kind: kind, Patterns: pats}})
+		if err != nil {
+			t.Fatalf("Build of a %d-pattern %v set failed: %v", n, kind, err)
+		}
+		ref := func(name string) bool {
+			nm := strings.ToLower(strings.TrimSuffix(name, "."))
+			if kind == consts.RoutingDomainKey_Full {
+				return set[nm]
+			}
+			for {
+				if set[nm] {
+					return true
+				}
+				i := strings.IndexByte(nm, '.')
+				if i < 0 {
+					return false
+				}
+				nm = nm[i+1:]
+			}
+		}
+		nprobe := 3000
+		hit, miss := 0, 0
+		for k := 0; k < nprobe; k++ {
+			p := pats[next()%uint64(len(pats))]
+			var name string
+			switch next() % 6 {
+			case 0:
+				name = p
+			case 1:
+				name = label() + "." + p
+			case 2:
+				name = "x" + p
+			case 3:
+				name = p[:len(p)-1]
+			case 4:
+				name = label() + "." + label() + "." + p
+			default:
+				name = label() + "." + tlds[next()%uint64(len(tlds))]
+			}
+			want := ref(name)
+			got := c11Bit(m.MatchDomainBitmap(name), 33)
+			if got != want {
+				t.Fatalf("scale: %d-pattern %v set (labelseed %d): name %q got %v want %v", n, kind, seed, name, got, want)
+			}
+			if want {
+				hit++
+			} else {
+				miss++
+			}
+		}
+		vkCase("C11.scale", fmt.Sprintf("%d/%v/%d", n, kind, seed), func() any {
+			return map[string]any{"patterns": n, "kind": string(kind), "labelseed": seed, "probes": nprobe, "hits": hit, "misses": miss}
+		}, "kind_"+string(kind), fmt.Sprintf("n_%d", n))
+	})
+}
